@@ -20,7 +20,7 @@ from harness import core
 from harness import pandora_util as pu
 from harness.props.c01 import expected_trace_py
 
-GEN = ["gen_tables", "gen_msconst"]
+GEN = ["gen_tables", "gen_msconst", "gen_block_loops"]
 EXTRACT_FILES = ["X15"]
 DRIVERS = ["x15"]
 RULE = ("random pandora.run executions: sad, window 3/5, images 12..30 x 14..36 (mono, 2-band, with/without masks with "
@@ -639,4 +639,8 @@ def run(ctx):
                 ctx.mismatch("zoom_index_map", {"n": n_, "sf": sf_}, got, want)
     ctx.gen_obligations = ["run_tbl_wf Gen.Tables.run_table = true (vm_compute), shared with C01",
                            "Gen.MsConst: PANDORA_MSK_PIXEL_INVALID = 963 (bits 0,1,6,7,8,9) and 1 <= chunk size of "
-                           "disparity_range (C15_constants_match); class defaults used as regenerated"]
+                           "disparity_range (C15_constants_match); class defaults used as regenerated",
+                           "skeleton_wf Gen.BlockLoops.disparity_range = true /\\ ms_skeleton_ok (offsets from int((W-1)/2) of the "
+                           "sliding_window's own W, two distinct np.full_like outputs receiving nanmin - marge / nanmax + marge of the "
+                           "inner chunk) /\\ sk_B = Gen.MsConst.ms_chunk_size (C15_block_loop_skeleton, vm_compute on the skeleton "
+                           "translator/gen_block_loops.py reads in fixed_zoom_pyramid.py with ast; fail closed)"]
